@@ -298,6 +298,7 @@ func (c *Ctx) checkConstantTables() {
 		"value":        {"GetT", "*" + pkgOnnx + ".TensorProto"},
 	}
 	refused := map[string]bool{"sparse_value": false, "value_string": false, "value_strings": false}
+	explicitCase := map[string]bool{}
 	seen := map[string]bool{}
 	defaultRefuses := false
 	ast.Inspect(constInit.Body, func(nd ast.Node) bool {
@@ -317,6 +318,7 @@ func (c *Ctx) checkConstantTables() {
 			name := constant.StringVal(tv.Value)
 			seen[name] = true
 			if _, isRef := refused[name]; isRef {
+				explicitCase[name] = true
 				refused[name] = bodyReturnsErr(cc.Body)
 				continue
 			}
@@ -364,7 +366,10 @@ func (c *Ctx) checkConstantTables() {
 		}
 	}
 	allRef := defaultRefuses
-	for _, ok := range refused {
+	for name, ok := range refused {
+		if !explicitCase[name] {
+			ok = defaultRefuses // no case of its own: the attribute falls into the default branch
+		}
 		allRef = allRef && ok
 	}
 	c.decide(allRef, "R14", "R14:constant:refusals", c.pos(constInit.Pos()), "sparse_value, value_string(s) and unknown attributes return an error", "an unsupported Constant attribute is not refused")
